@@ -328,6 +328,9 @@ def shape_builtin(item, ob):
 
 def run_shape(item, ob):
     fam, payload = item
+    if fam == 'vectorize':
+        from props import vec07
+        vec07.MIR = MIR; return vec07.run_shape(item, ob)
     {'binop': shape_binop, 'div': shape_div, 'unary': shape_unary, 'builtin': shape_builtin}[fam](payload, ob)
 
 def main(tier, seed, t0):
@@ -354,12 +357,14 @@ def main(tier, seed, t0):
             for lb in LEVELS_C:
                 if la.startswith('Int') and lb.startswith('Int'): continue      # integer x integer: decided under C06 (same closures, integer oracle)
                 items.append(('builtin', (name, la, lb)))
+    from props import vec07
+    items += vec07.items_for(tier, seed)
     rnd.shuffle(items)
     merged, per = pmap(run_shape, items, tier)
     return finish(PROP, tier, seed, merged, t0, th=th,
         kernels=['nnum.rs: Add/Sub/Mul/Rem for NNum (4 owned/borrowed impls, binary_match!), Div, div_floor, mod_floor, dumb_rational_div_floor, floor/ceil/trunc/round (forward_int_coercion!), numerator, denominator, abs, signum, Neg, to_rational, to_f64_or_inf_or_complex, to_complex_or_inf, is_nonzero',
                  'lib.rs builtin closures: % // %% /!'],
         bounds={'operands': 'every ordered pair of levels {int Small, int Big, rational, float, complex}; values unbounded (Z, Q, abstract doubles)', 'forwarding impls': 'all 4 signatures; level pairs sampled by VERIF_SEED in the quick tier, all in thorough'},
-        outside=['float/complex arithmetic itself (uninterpreted: the claim is level selection, routing and operand order)', '^ with non-integer exponents, transcendental functions', 'vector broadcasting wrappers (expect_nums_and_vectorize_*)',
+        outside=['float/complex arithmetic itself (uninterpreted: the claim is level selection, routing and operand order)', '^ with non-integer exponents, transcendental functions', 'vectors longer than 2 in the broadcasting wrappers (expect_nums_and_vectorize_2 / _2_nums are run on scalar / vector pairs of length <= 2 with a recorder body)',
                  'lowest-terms normalisation (num-rational invariant)'],
         assumptions=['num-rational implements Q exactly (Ratio ops, floor/ceil/round/trunc/to_integer/recip, from_float)', 'int/rational -> f64 conversions are the functions modelled (exact below 2^53, otherwise an uninterpreted rounding)'])
